@@ -43,7 +43,21 @@ func (r *Run) BuildRepoBinary(pkg, name string) (string, error) {
 func (r *Run) BuildWorker() (string, error) {
 	out := filepath.Join(r.WorkDir, "bin", "vworker")
 	os.MkdirAll(filepath.Dir(out), 0o755)
-	cmd := exec.Command("go", "build", "-race", "-tags", "verif", "-o", out, "./cmd/vworker")
+	args := []string{"build", "-race", "-tags", "verif", "-o", out}
+	if RepoDir != "/repo" {
+		// development run against a scratch worktree: same module file with the replace redirected
+		mod, err := os.ReadFile(filepath.Join(VerifDir, "harness", "go.mod"))
+		if err != nil {
+			return "", err
+		}
+		alt := filepath.Join(r.WorkDir, "alt.mod")
+		os.WriteFile(alt, []byte(strings.Replace(string(mod), "=> /repo", "=> "+RepoDir, 1)), 0o644)
+		sum, _ := os.ReadFile(filepath.Join(VerifDir, "harness", "go.sum"))
+		os.WriteFile(filepath.Join(r.WorkDir, "alt.sum"), sum, 0o644)
+		args = append(args, "-modfile="+alt)
+	}
+	args = append(args, "./cmd/vworker")
+	cmd := exec.Command("go", args...)
 	cmd.Dir = filepath.Join(VerifDir, "harness")
 	cmd.Env = GoEnv()
 	b, err := cmd.CombinedOutput()
